@@ -91,8 +91,27 @@ Fixpoint sanitize_go (first_rule : bool) (first : bool) (skip : nat) (s : string
   end.
 Definition sanitize_name (s : string) : string := sanitize_go true true 0 s.
 
+(* strings.ToValidUTF8(s, U+FFFD): every RUN of bytes that are not part of a well-formed sequence becomes one U+FFFD *)
+Fixpoint to_valid (inrun : bool) (skip : nat) (s : string) : string :=
+  match s with
+  | EmptyString => EmptyString
+  | String a r =>
+    match skip with
+    | S k => String a (to_valid false k r)
+    | O =>
+      let b := byte a in
+      if (b <? 128)%N then String a (to_valid false 0 r)
+      else match rune_width b r with
+           | S (S k) => String a (to_valid false (S k) r)
+           | _ => if inrun then to_valid true 0 r
+                  else String (ascii_of_N 239) (String (ascii_of_N 191) (String (ascii_of_N 189) (to_valid true 0 r)))
+           end
+    end
+  end.
+
+(* the value is cut at VALUE_MAX bytes and then made valid UTF-8 (fix e3b18d4: the cut may split a character) *)
 Definition truncate_value (v : string) : string :=
-  if VALUE_MAX <? slen v then (substring 0 (Z.to_nat VALUE_MAX) v ++ VALUE_ELLIPSIS)%string else v.
+  to_valid false 0 (if VALUE_MAX <? slen v then (substring 0 (Z.to_nat VALUE_MAX) v ++ VALUE_ELLIPSIS)%string else v).
 
 Definition sanitize_labels (ls : labels) : labels :=
   map (fun kv => (sanitize_name (fst kv), truncate_value (snd kv))) ls.
